@@ -29,6 +29,12 @@
 #include <boost/asio/ip/tcp.hpp>
 #include <boost/beast/http.hpp>
 #include <algorithm>
+#include <thread>
+#include <mutex>
+#include <condition_variable>
+#include <chrono>
+#include "base/function.hpp"
+#include "remote/configobjectslock.hpp"
 
 using namespace icinga;
 
@@ -40,6 +46,26 @@ std::vector<ConfigObject::Ptr> l_Objs;     // in creation order
 ApiUser::Ptr l_User;
 std::string l_UserPerms;
 bool l_Init = false;
+bool l_Sig = false;           // pm_user sig=1: every permission filter is rendered as `pm_sig(obj) && (<filter>)`
+// directed schedules (pm_race): the request's thread is parked inside the permission filter's evaluation of ONE object
+std::mutex l_ParkM;
+std::condition_variable l_ParkCV;
+Object *l_ParkTarget = nullptr;
+bool l_Parked = false, l_Go = false;
+
+// pm_sig(o): always true.  When armed for o, signals "the permission filter is being evaluated for o" and waits for the main thread.
+Value PmSig(const std::vector<Value>& args)
+{
+	if (args.empty() || !args[0].IsObject()) return true;
+	Object::Ptr o = args[0];
+	std::unique_lock<std::mutex> lock(l_ParkM);
+	if (l_ParkTarget && o.get() == l_ParkTarget && !l_Parked) {
+		l_Parked = true;
+		l_ParkCV.notify_all();
+		l_ParkCV.wait_for(lock, std::chrono::seconds(30), [] { return l_Go; });
+	}
+	return true;
+}
 // global constants declared by pm_glob in this case: name, whether it existed before, previous value
 struct PmSavedGlobal { String name; bool existed; Value old; };
 std::vector<PmSavedGlobal> l_SavedGlobals;
@@ -125,6 +151,8 @@ void InitOnce()
 {
 	if (l_Init) return;
 	l_Init = true;
+	// side-effect free, so that it may also be called when the permission lambda runs sandboxed (filter phase)
+	ScriptGlobal::Set("pm_sig", new Function("pm_sig", PmSig, { "o" }, true));
 	// objects the inventories refer to through navigation fields (check_command, check_period, event_command,
 	// command_endpoint); a checkable with command_endpoint needs a zone that is the endpoint zone's parent
 	LoadConfig("object CheckCommand \"pmdummy\" { command = [ \"/bin/true\" ] }\n"
@@ -284,6 +312,7 @@ VOP(pm_glob)
 VOP(pm_user)
 {
 	l_UserPerms = a.str("perms", "-");
+	l_Sig = a.num("sig", 0) != 0;
 }
 
 VOP(pm_load)
@@ -312,7 +341,7 @@ VOP(pm_load)
 			else if (at + 1 == e.size())
 				c << "    { permission = " << Quote(HexDec(e.substr(0, at))) << " },\n";
 			else
-				c << "    { permission = " << Quote(HexDec(e.substr(0, at))) << ", filter = {{ " << FilterText(e.substr(at + 1)) << " }} },\n";
+				c << "    { permission = " << Quote(HexDec(e.substr(0, at))) << ", filter = {{ " << (l_Sig ? "pm_sig(obj) && (" : "(") << FilterText(e.substr(at + 1)) << ") }} },\n";
 		}
 		c << "  ]\n";
 	}
@@ -519,6 +548,353 @@ VOP(pm_http)
 	} else if (!objs.empty() || !changed.empty()) {
 		o << " objs=" << JoinSorted(objs);      // a 404 that nevertheless acted on objects
 	}
+	Out(o.str());
+}
+
+// ---------------------------------------------------------------------------------------------------------------
+// round 5 (f): the attribute dimension of the read path.
+namespace {
+
+// runs one request through HttpHandler::ProcessRequest in a coroutine on the harness io_context (as pm_http does)
+void PmRunHttp(boost::beast::http::verb verb, const std::string& target, const Dictionary::Ptr& body,
+	boost::beast::http::response<boost::beast::http::string_body>& response)
+{
+	namespace http = boost::beast::http;
+	HttpInit();
+	http::request<http::string_body> request;
+	request.method(verb);
+	request.target(target);
+	request.version(11);
+	request.set(http::field::accept, "application/json");
+	request.body() = JsonEncode(body).GetData();
+	ApiUser::Ptr user = l_User;
+	bool done = false;
+	std::string failure;
+	IoEngine::SpawnCoroutine(l_Io, [&](boost::asio::yield_context yc) {
+		try {
+			HttpHandler::ProcessRequest(*l_Stream, user, request, response, yc, *l_Server);
+			done = true;
+		} catch (const std::exception& ex) {
+			failure = ex.what();
+		}
+	});
+	l_Io.restart();
+	l_Io.run();
+	if (!done) throw std::runtime_error("handler did not complete: " + failure);
+}
+
+uint32_t PmFnv(const std::string& s)
+{
+	uint32_t h = 2166136261u;
+	for (unsigned char c : s) { h ^= c; h *= 16777619u; }
+	return h;
+}
+
+// a set of names: the names themselves when there are at most 6, else #<count>:<fnv-1a of the sorted, comma-joined names>
+std::string PmDigest(std::vector<std::string> v)
+{
+	std::sort(v.begin(), v.end());
+	v.erase(std::unique(v.begin(), v.end()), v.end());
+	if (v.empty()) return "-";
+	std::string j;
+	for (auto& x : v) { if (!j.empty()) j += ","; j += x; }
+	if (v.size() <= 6) { std::replace(j.begin(), j.end(), ',', '+'); return j; }
+	char buf[64];
+	snprintf(buf, sizeof(buf), "#%zu:%08x", v.size(), PmFnv(j));
+	return buf;
+}
+
+bool PmFieldHidden(const Field& f)
+{
+	return (f.Attributes & FANoUserView) || ((f.Attributes & FANavigation) && !(f.Attributes & (FAConfig | FAState)));
+}
+
+bool PmIsConfigTypeName(const String& n)
+{
+	Type::Ptr t = Type::GetByName(n);
+	return t && ConfigObject::TypeInstance->IsAssignableFrom(t);
+}
+
+// every place inside a serialised value where a whole config object shows up: a dictionary with "type" naming a config
+// type and "__name" (what Serialize() makes of a ConfigObject)
+void PmFindEmbedded(const Value& v, const std::string& path, std::vector<std::string>& out)
+{
+	if (v.IsObjectType<Dictionary>()) {
+		Dictionary::Ptr d = v;
+		if (d->Contains("type") && d->Contains("__name") && d->Get("type").IsString() && PmIsConfigTypeName(d->Get("type"))) {
+			out.push_back(path + ">" + std::string(String(d->Get("type")).GetData()) + ":" + HexEnc(String(d->Get("__name")).GetData()));
+			return;
+		}
+		ObjectLock olock(d);
+		for (const Dictionary::Pair& kv : d) PmFindEmbedded(kv.second, path, out);
+	} else if (v.IsObjectType<Array>()) {
+		Array::Ptr a = v;
+		ObjectLock olock(a);
+		for (const Value& x : a) PmFindEmbedded(x, path, out);
+	}
+}
+
+int PmCountHidden(const Type::Ptr& type, const Dictionary::Ptr& attrs)
+{
+	int n = 0;
+	ObjectLock olock(attrs);
+	for (const Dictionary::Pair& kv : attrs) {
+		int fid = type->GetFieldId(kv.first);
+		if (fid >= 0 && PmFieldHidden(type->GetFieldInfo(fid))) n++;
+	}
+	return n;
+}
+
+} // namespace
+
+// pm_fields type=<TypeName>: the live reflection data of a type, as the facts generator reads it from the .ti files
+VOP(pm_fields)
+{
+	Type::Ptr type = Type::GetByName(a.str("type"));
+	if (!type) { Out("pm_fields n=-"); return; }
+	// field ids are an artefact of the class compiler (it sorts fields by type): the rows are compared as a SET
+	std::vector<std::string> rowv, navv, objv;
+	int n = type->GetFieldCount();
+	for (int fid = 0; fid < n; fid++) {
+		Field f = type->GetFieldInfo(fid);
+		bool nav = f.Attributes & FANavigation;
+		bool ov = PmIsConfigTypeName(f.TypeName);
+		rowv.push_back(std::string(f.Name) + "/" + (nav && f.NavigationName ? f.NavigationName : "-") + "/" +
+			((f.Attributes & FAConfig) ? "1" : "0") + ((f.Attributes & FAState) ? "1" : "0") + (nav ? "1" : "0") +
+			((f.Attributes & FANoUserView) ? "1" : "0") + (ov ? "1" : "0"));
+		if (nav) navv.push_back(f.Name);
+		if (ov) objv.push_back(f.Name);
+	}
+	std::sort(rowv.begin(), rowv.end());
+	std::string rows;
+	for (auto& r : rowv) rows += r + ";";
+	if (getenv("PM_FIELDS_DUMP")) fprintf(stderr, "%s\n", rows.c_str());
+	char buf[32];
+	snprintf(buf, sizeof(buf), "%08x", PmFnv(rows));
+	Out("pm_fields n=" + std::to_string(n) + " d=" + buf + " nav=" + JoinSorted(navv) + " obj=" + JoinSorted(objv));
+}
+
+// pm_aq ptype=hosts|services [name=<hex>] [attrs=<hex,..>] [aj=<hex,..>] [alljoins=1] [meta=<hex,..>] + query parameters
+// GET /v1/objects/<type> through the real handler; observed: status, result names, the KEYS of every attrs dictionary, the
+// joined objects, every config object embedded anywhere in a serialised value, number of hidden fields among the keys
+VOP(pm_aq)
+{
+	namespace http = boost::beast::http;
+	Dictionary::Ptr body = BuildQuery(a);
+	std::string target = "/v1/objects/" + a.str("ptype", "hosts");
+	if (a.has("name")) target += "/" + UrlEnc(HexDec(a.str("name")));
+	if (a.has("attrs")) body->Set("attrs", HexArray(a.str("attrs")));
+	if (a.has("aj")) body->Set("joins", HexArray(a.str("aj")));
+	if (a.num("alljoins", 0)) body->Set("all_joins", true);
+	if (a.has("meta")) body->Set("meta", HexArray(a.str("meta")));
+	http::response<http::string_body> response;
+	PmRunHttp(http::verb::get, target, body, response);
+	int code = response.result_int();
+	if (code != 200) { Out("pm_aq code=" + std::to_string(code)); return; }
+	Dictionary::Ptr rb;
+	try { rb = JsonDecode(response.body()); } catch (const std::exception&) {}
+	Array::Ptr results = rb ? Array::Ptr(rb->Get("results")) : Array::Ptr();
+	if (!results) { Out("pm_aq code=ok unparsable"); return; }
+	std::string tname = a.str("ptype", "hosts") == "services" ? "Service" : "Host";
+	Type::Ptr ptype = Type::GetByName(tname);
+	static const std::map<std::string, std::string> jt = { { "host", "Host" }, { "check_command", "CheckCommand" },
+		{ "check_period", "TimePeriod" }, { "event_command", "EventCommand" }, { "command_endpoint", "Endpoint" } };
+	std::vector<std::string> objs, joins, embeds;
+	std::string akeys = "-";
+	bool avary = false, first = true;
+	std::map<std::string, std::string> jkeys;
+	bool jvary = false;
+	int hidden = 0;
+	ObjectLock olock(results);
+	for (const Dictionary::Ptr& r : results) {
+		String oname = r->Get("name");
+		objs.push_back(tname + ":" + HexEnc(oname.GetData()));
+		Dictionary::Ptr attrs = r->Get("attrs");
+		std::vector<std::string> ks;
+		if (attrs) {
+			ObjectLock alock(attrs);
+			for (const Dictionary::Pair& kv : attrs) {
+				ks.push_back(kv.first.GetData());
+				PmFindEmbedded(kv.second, kv.first.GetData(), embeds);
+			}
+			hidden += PmCountHidden(ptype, attrs);
+		}
+		std::string d = PmDigest(ks);
+		if (first) akeys = d; else if (d != akeys) avary = true;
+		first = false;
+		Dictionary::Ptr js = r->Get("joins");
+		if (js) {
+			ConfigObject::Ptr pobj = ConfigObject::GetObject(tname, oname);
+			ObjectLock jlock(js);
+			for (const Dictionary::Pair& kv : js) {
+				Dictionary::Ptr jo = kv.second;
+				std::string pfx = kv.first.GetData();
+				// the joined object as the result object's navigation field delivers it (a join restricted to some fields need not contain a name)
+				Object::Ptr jobj;
+				if (pobj) {
+					for (int fid = 0; fid < ptype->GetFieldCount(); fid++) {
+						Field f = ptype->GetFieldInfo(fid);
+						if ((f.Attributes & FANavigation) && f.NavigationName && pfx == f.NavigationName) { jobj = pobj->NavigateField(fid); break; }
+					}
+				}
+				String nm;
+				if (jo && jo->Contains("__name")) nm = jo->Get("__name");
+				else if (jobj) nm = static_pointer_cast<ConfigObject>(jobj)->GetName();
+				auto it = jt.find(pfx);
+				joins.push_back(pfx + ">" + (it == jt.end() ? std::string("?") : it->second) + ":" + HexEnc(nm.GetData()));
+				std::vector<std::string> jks;
+				if (jo) {
+					ObjectLock jolock(jo);
+					for (const Dictionary::Pair& jkv : jo) {
+						jks.push_back(jkv.first.GetData());
+						PmFindEmbedded(jkv.second, pfx + "." + jkv.first.GetData(), embeds);
+					}
+					if (jobj) hidden += PmCountHidden(jobj->GetReflectionType(), jo);
+				}
+				std::string jd = PmDigest(jks);
+				auto jit = jkeys.find(pfx);
+				if (jit == jkeys.end()) jkeys[pfx] = jd; else if (jit->second != jd) jvary = true;
+			}
+		}
+	}
+	std::string jk;
+	for (auto& kv : jkeys) { if (!jk.empty()) jk += "/"; jk += kv.first + "=" + kv.second; }
+	Out("pm_aq code=ok objs=" + JoinSorted(objs) + " akeys=" + akeys + (avary ? "!vary" : "") + " joins=" + JoinSorted(joins) +
+		" jkeys=" + (jk.empty() ? "-" : jk) + (jvary ? "!vary" : "") + " embed=" + JoinSorted(embeds) + " hidden=" + std::to_string(hidden));
+}
+
+// ---------------------------------------------------------------------------------------------------------------
+// round 5 (e): check-then-act.  pm_race kind=modify|action|query|delete ptype=hosts|services target=<hex name>
+//   nvars=<vars> [ncp= nec= nce=] lock=0|1 + query parameters (as pm_http; `name=` puts the name into the URL)
+// Directed schedule, no hook in /repo: (1) the request runs on its own thread; its permission filter (rendered with pm_sig,
+// see pm_user sig=1) parks the thread while it evaluates the TARGET object, i.e. after the handler resolved it and before the
+// verdict is used; (2) with lock=1 the harness - "another writer" - takes ObjectNameLock(type, target); (3) it deletes the
+// target and creates a NEW object of the same name with other attributes; (4) it lets the request continue - the request
+// finishes its authorisation and then has to wait for the name lock - and releases the lock.  Observed: status, names in `results`, and which OBJECT was acted on - the one that had the name at
+// authorisation time (old) or the one that has it now (new): notes (modify), next_check (action), vars.pmid in the
+// serialised attributes (query), still registered (delete).
+VOP(pm_race)
+{
+	namespace http = boost::beast::http;
+	HttpInit();
+	std::string kind = a.str("kind", "modify");
+	std::string tname = a.str("ptype", "hosts") == "services" ? "Service" : "Host";
+	String target = HexDec(a.str("target"));
+	ConfigObject::Ptr oldObj = ConfigObject::GetObject(tname, target);
+	size_t idx = 0;
+	while (idx < l_Objs.size() && l_Objs[idx] != oldObj) idx++;
+	if (!oldObj || idx == l_Objs.size()) throw std::runtime_error("pm_race: no such target");
+	Dictionary::Ptr body = BuildQuery(a);
+	std::string url;
+	http::verb verb;
+	const double marker = 2100000000.0 + CaseId() % 1000;
+	String notes = "pm-race-" + std::to_string(CaseId()) + "-" + std::to_string(rand());
+	if (kind == "action") {
+		url = "/v1/actions/reschedule-check";
+		verb = http::verb::post;
+		body->Set("next_check", marker);
+		for (auto& o : l_Objs) static_pointer_cast<Checkable>(o)->SetNextCheck(1.0, true);
+	} else {
+		url = "/v1/objects/" + a.str("ptype", "hosts");
+		if (a.has("name")) url += "/" + UrlEnc(HexDec(a.str("name")));
+		if (kind == "query") { verb = http::verb::get; body->Set("attrs", new Array({ String("vars"), String("__name") })); }
+		else if (kind == "modify") { verb = http::verb::post; body->Set("attrs", new Dictionary({ { "notes", notes } })); }
+		else verb = http::verb::delete_;
+	}
+	// the object that will carry the name afterwards
+	PmObjSpec ns = l_Specs.at(idx);
+	ns.vars = a.str("nvars", "-");
+	ns.cp = HexDec(a.str("ncp", "-")); ns.ec = HexDec(a.str("nec", "-")); ns.ce = HexDec(a.str("nce", "-"));
+	std::ostringstream oc;
+	if (!ns.svc) oc << "object Host " << Quote(ns.name) << " {\n" << PmNavText(ns) << "  enable_active_checks = false\n" << VarsText(ns.vars) << "}\n";
+	else oc << "object Service " << Quote(ns.name) << " {\n  host_name = " << Quote(ns.host) << "\n" << PmNavText(ns) << "  enable_active_checks = false\n" << VarsText(ns.vars) << "}\n";
+
+	{
+		std::unique_lock<std::mutex> lock(l_ParkM);
+		l_ParkTarget = oldObj.get(); l_Parked = false; l_Go = false;
+	}
+	std::unique_ptr<ObjectNameLock> nameLock;
+	bool useLock = a.num("lock", 1) != 0 && (kind == "modify" || kind == "delete");
+
+	http::response<http::string_body> response;
+	std::string failure;
+	bool finished = false;
+	std::thread worker([&]() {
+		try { PmRunHttp(verb, url, body, response); } catch (const std::exception& ex) { failure = ex.what(); }
+		std::unique_lock<std::mutex> lock(l_ParkM);
+		finished = true;
+		l_ParkCV.notify_all();
+	});
+	bool parked;
+	{
+		std::unique_lock<std::mutex> lock(l_ParkM);
+		l_ParkCV.wait_for(lock, std::chrono::seconds(60), [&] { return l_Parked || finished; });
+		parked = l_Parked;
+	}
+	// the other writer: takes the name lock (the request is parked in its authorisation phase and has not reached its own
+	// ObjectNameLock yet; a request that never evaluates the target's permission filter has finished by now: no lock, or
+	// it would wait for us forever), deletes the object, creates another one under its name
+	useLock = useLock && parked;
+	if (useLock) nameLock.reset(new ObjectNameLock(Type::GetByName(tname), target));
+	RemoveObject(oldObj);
+	LoadConfig(oc.str());
+	ConfigObject::Ptr newObj = ConfigObject::GetObject(tname, target);
+	if (!newObj || newObj == oldObj) { failure = "swap failed"; }
+	else { l_Objs[idx] = newObj; l_Specs[idx] = ns; }
+	{
+		std::unique_lock<std::mutex> lock(l_ParkM);
+		l_Go = true; l_ParkTarget = nullptr;
+		l_ParkCV.notify_all();
+	}
+	if (useLock) {
+		std::this_thread::sleep_for(std::chrono::milliseconds(3));   // let the request reach the lock (not needed for the outcome)
+		nameLock.reset();
+	}
+	worker.join();
+	if (!failure.empty()) throw std::runtime_error("pm_race: " + failure);
+
+	int code = response.result_int();
+	std::ostringstream o;
+	o << "pm_race parked=" << (parked ? 1 : 0) << " code=";
+	if (code == 404) o << "404"; else if (code == 200 || code == 500) o << "ok"; else o << code;
+	Dictionary::Ptr rb;
+	try { rb = JsonDecode(response.body()); } catch (const std::exception&) {}
+	Array::Ptr results = rb ? Array::Ptr(rb->Get("results")) : Array::Ptr();
+	std::vector<std::string> objs, acted;
+	bool actedOld = false, actedNew = false;
+	if (kind == "action") {
+		for (auto& ob : l_Objs)
+			if (static_pointer_cast<Checkable>(ob)->GetNextCheck() == marker) objs.push_back(ObjKey(ob));
+		actedOld = static_pointer_cast<Checkable>(oldObj)->GetNextCheck() == marker;
+		actedNew = newObj && static_pointer_cast<Checkable>(newObj)->GetNextCheck() == marker;
+		if (actedOld) objs.push_back(ObjKey(oldObj));
+	} else if (results) {
+		ObjectLock olock(results);
+		for (const Dictionary::Ptr& r : results) {
+			objs.push_back(tname + ":" + HexEnc(String(r->Get("name")).GetData()));
+			if (kind == "query" && String(r->Get("name")) == target) {
+				// whose attributes were serialised: compare vars with the two objects'
+				Dictionary::Ptr at = r->Get("attrs");
+				String sv = at ? JsonEncode(at->Get("vars")) : String("?");
+				String ov = JsonEncode(static_pointer_cast<CustomVarObject>(oldObj)->GetVars());
+				String nv = newObj ? JsonEncode(static_pointer_cast<CustomVarObject>(newObj)->GetVars()) : String("?");
+				if (sv == ov) actedOld = true;
+				if (sv == nv && sv != ov) actedNew = true;
+			}
+		}
+	}
+	if (kind == "modify") {
+		actedOld = static_pointer_cast<Checkable>(oldObj)->GetNotes() == notes;
+		actedNew = newObj && static_pointer_cast<Checkable>(newObj)->GetNotes() == notes;
+	}
+	if (kind == "delete") {
+		// objects of the fixture are not API-created: DeleteObject refuses them; what matters is that the new object is untouched
+		actedNew = newObj && (ConfigObject::GetObject(tname, target) != newObj || !newObj->IsActive());
+	}
+	std::sort(objs.begin(), objs.end());
+	objs.erase(std::unique(objs.begin(), objs.end()), objs.end());
+	if (code != 404 || !objs.empty()) o << " objs=" << JoinSorted(objs);
+	o << " acted=" << (actedOld ? "old" : "") << (actedOld && actedNew ? "+" : "") << (actedNew ? "new" : "") << (!actedOld && !actedNew ? "-" : "");
 	Out(o.str());
 }
 
